@@ -4,7 +4,7 @@ CONSTANTS Parent <- TBlkParent  Area <- TBlkArea  Height <- TBlkHeight  Sym <- T
 CONSTANTS Targets <- TBlkTargets  Vals <- ValsQ  Facs <- FacsQ  Masses <- MassesQ  Maps <- MapsQ  FracMaps <- FracMapsQ  AddMaps <- AddMapsQ  SetMaps <- SetMapsQ
 CONSTANTS AdjSets <- AdjSetsQ  EnrFracs <- EnrFracsQ  AdjMFs <- AdjMFsQ
 CONSTANTS HDom <- HDom123  HTargets <- TBlkHAll  HVals <- HVals2
-CONSTANTS LeafVolCut <- LeafVolCutEnv  ScaleRaises <- ScaleRaisesEnv
+CONSTANTS WithLump <- No  LeafVolCut <- LeafVolCutEnv  ScaleRaises <- ScaleRaisesEnv
 INIT InitB
 NEXT NextB
 CONSTRAINT Bound
